@@ -217,7 +217,7 @@ func c11GenRcpt(r *core.Rand, conf ref.ExtConf) c11Line {
 func c11Run(ctx *core.Ctx) {
 	nValid, shortLen, nSeeds := 48000, 4, 80
 	if ctx.Thorough() {
-		nValid, shortLen, nSeeds = 400000, 5, 200
+		nValid, shortLen, nSeeds = 3000000, 6, 800
 	}
 	ctx.Rule = fmt.Sprintf("%d grammar-derived valid MAIL/RCPT lines (quoted and dot-string local-parts, domains and address literals, source routes, every parameter of the enabled extensions in random subsets, orders and letter case) with known decoded values; every single-point mutation (delete / duplicate / replace by each of 14 significant characters) of %d seed lines; ALL strings of length <=%d over {<,>,@,\",\\,SP,:,.,a,=} as the path of MAIL and RCPT; parameters of disabled extensions; all under the 32 extension-flag settings (sampled). An independent conservative classifier (ref.ClassifyLine) marks definitely-invalid lines; valid lines carry their expected values by construction. Non-trivial: the line is judged (valid by construction or definitely invalid); distinct by (flags, line).", nValid, nSeeds, shortLen)
 	ctx.Assumptions = []string{"lenient forms (no angle brackets, space after the colon, <postmaster>, duplicate keywords, value on a valueless keyword, unknown ORCPT types, text glued to '>') are not judged", "a quoted local-part may reach the backend verbatim or unquoted"}
